@@ -23,11 +23,12 @@ def run_one(prop: str, m: dict, cases: str | None) -> tuple[str, str, float]:
     d = tempfile.mkdtemp(prefix="verif-mut-")
     try:
         shutil.copytree("/repo/src", os.path.join(d, "src"))
-        p = os.path.join(d, m["file"])
-        s = open(p).read()
-        if s.count(m["old"]) != m.get("count", 1):
-            return m["name"], f"BAD-MUTANT (old occurs {s.count(m['old'])}x)", 0.0
-        open(p, "w").write(s.replace(m["old"], m["new"]))
+        for ed in [m] + list(m.get("more", [])):
+            p = os.path.join(d, ed["file"])
+            s = open(p).read()
+            if s.count(ed["old"]) != ed.get("count", 1):
+                return m["name"], f"BAD-MUTANT (old occurs {s.count(ed['old'])}x)", 0.0
+            open(p, "w").write(s.replace(ed["old"], ed["new"]))
         env = dict(os.environ, VERIF_REPO=d, VERIF_SEED=os.environ.get("VERIF_SEED", "1"))
         cmd = [os.path.join(VERIF, "run_check.py"), prop, "--tier", "quick", "--no-evidence"]
         if cases:
